@@ -1166,35 +1166,25 @@ mutual
       unfold runMacro
       simp only []
       have h0 := runOK_app h (.ev (.tick 1))
-      split
-      · exact h0
-      · split
-        · apply runOK_app; apply runOK_app; apply runOK_app
-          exact runOK_macros env mid0 _ h0
-        · split
-          · apply runOK_app
-            apply runOK_macros env mid1
-            apply runOK_app; apply runOK_app; apply runOK_app
-            exact runOK_macros env mid0 _ h0
-          · apply runOK_app
-            apply runOK_macros env mid2
-            apply runOK_app
-            apply runOK_macros env mid1
-            apply runOK_app; apply runOK_app; apply runOK_app
-            exact runOK_macros env mid0 _ h0
+      repeat' split
+      all_goals
+        repeat (first
+          | exact h0
+          | apply runOK_app
+          | apply runOK_macros env mid0
+          | apply runOK_macros env mid1
+          | apply runOK_macros env mid2)
     | .sar hostport attrs ch bound mid0 mid, r, h => by
       unfold runMacro
       simp only []
       have h0 := runOK_app h (.ev (.tick 1))
-      split
-      · exact h0
-      · split
-        · apply runOK_app; apply runOK_app; apply runOK_app
-          exact runOK_macros env mid0 _ h0
-        · apply runOK_app
-          apply runOK_macros env mid
-          apply runOK_app; apply runOK_app; apply runOK_app
-          exact runOK_macros env mid0 _ h0
+      repeat' split
+      all_goals
+        repeat (first
+          | exact h0
+          | apply runOK_app
+          | apply runOK_macros env mid0
+          | apply runOK_macros env mid)
   theorem runOK_macros (env : Env) : ∀ (ms : List Macro) (r : Run), RunOK env r → RunOK env (runMacros env r ms)
     | [], r, h => by
       unfold runMacros
